@@ -190,7 +190,10 @@ def handle : Handler := fun j => do
         let a ← t.getArr?
         if a.size != 2 then throw "bad substitution"
         pure (Str.ofString (← a[0]!.getStr?), Str.ofString (← a[1]!.getStr?))
-      let L : SetupEmit.Layout := ⟨← jstrs lj "roots", delims, subst, ← jstr lj "flavor"⟩
+      let flavors ← match optField lj "flavors" with
+        | some _ => (← objList lj "flavors").mapM fun (k, v) => do pure (Str.ofString k, Str.ofString (← v.getStr?))
+        | none => pure []
+      let L : SetupEmit.Layout := ⟨← jstrs lj "roots", delims, subst, ← jstr lj "flavor", flavors⟩
       pure [("sh", match SetupEmit.emitSh db L (appSetup db fuel fwd req env) with
         | some l => ofStrs l
         | none => Json.null)]
